@@ -182,6 +182,11 @@ class ForcePlatformsDataBlock(Block):
         return block
 
     def _write(self, stream) -> None:
+        if self.format != ForcePlatformBlockFormat.byTrackISSFormat:
+            # also for a block without platforms: what is written must be readable
+            raise NotImplementedError(
+                f"ForcePlatformDataBlock format {self.format} not implemented"
+            )
         i32.bwrite(stream, len(self._platforms))
         i32.bwrite(stream, self.frequency)
         f32.bwrite(stream, self.start_time)
